@@ -179,11 +179,11 @@ class ScipyLinprog(BaseOptimizationLibrary):
         problem: OptimizationProblem,
         message: Any,
         status: Any,
-        output_opt: Mapping[str, RealArray],
-        jac_opt: Mapping[str, RealArray],
-        x_0: RealArray,
-        x_opt: RealArray,
-        result: Any,
+        output_opt: Mapping[str, RealArray] | None = None,
+        jac_opt: Mapping[str, RealArray] | None = None,
+        x_0: RealArray | None = None,
+        x_opt: RealArray | None = None,
+        result: Any = None,
     ) -> OptimizationResult:
         """
         Args:
@@ -193,6 +193,10 @@ class ScipyLinprog(BaseOptimizationLibrary):
             x_opt: The optimal design value.
             result: A result specific to this library.
         """  # noqa: D205 D212
+        if result is None:
+            # A termination criterion fired before the solver returned its result.
+            return super()._get_result(problem, message, status)
+
         f_opt = output_opt[problem.objective.name]
         constraint_names = problem.constraints.get_names()
         constraint_values = {name: output_opt[name] for name in constraint_names}
